@@ -9,8 +9,10 @@ method `i`, whose arguments are given in the request: `Arg.int` (an Integer cons
 `D_j`).  The method body is `ldc_w D_0`.
 
 `as_dynamic` resolves every argument recursively and *clones* the result into the tree: the value of `resolve` is the
-number of `Loadable` nodes of the expanded tree.  Nothing in the Rust code bounds the recursion (`// TODO: recursion`):
-`gas` is the number of levels the stack holds, `resolve 0` is the stack overflow.
+number of `Loadable` nodes of the expanded tree.  Since cb2ce34 the recursion carries `depth`:
+`get_loadable_at_depth(argument, .., depth + 1)` starts with `depth > MAX_BOOTSTRAP_ARGUMENT_DEPTH (= 16) => bail!`, for
+every argument (also an Integer).  The model recurses structurally on `rem = 16 - depth`.  The expansion of acyclic
+argument DAGs into trees is unchanged (up to `fanout ^ 16` nodes).
 -/
 
 namespace Total.Dyn
@@ -24,31 +26,37 @@ inductive Arg where
 
 abbrev Bsms := List (List Arg)
 
-/-- the argument loop of `as_dynamic`: `for &argument in &method.arguments { vec.push(pool.get_loadable(argument, ..)?) }` -/
-def sumArgs (f : Nat → TM Nat) : List Arg → TM Nat
+/-- `MAX_BOOTSTRAP_ARGUMENT_DEPTH` -/
+def maxDepth : Nat := 16
+
+/-- the argument loop of `as_dynamic`: `for &argument in &method.arguments { vec.push(pool.get_loadable_at_depth(argument, .., depth + 1)?) }`;
+`inner = none`: `depth + 1 > 16`, every argument fails -/
+def sumArgs (inner : Option (Nat → TM Nat)) : List Arg → TM Nat
   | [] => pure 0
-  | .int :: rest => do
-    let n ← sumArgs f rest
+  | a :: rest =>
+    match inner with
+    | none => fail
+    | some f => do
+      let x ← (match a with | .int => pure 1 | .dyn j => f j)
+      let n ← sumArgs inner rest
+      pure (x + n)
+
+/-- `as_dynamic` of `D_i` once the deeper resolver is fixed -/
+def resolveWith (spec : Bsms) (inner : Option (Nat → TM Nat)) (i : Nat) : TM Nat :=
+  match spec[i]? with
+  | none => fail                                  -- `PoolRead::get`: index beyond the pool
+  | some args => do
+    request args.length                           -- `Vec::with_capacity(method.arguments.len())`
+    let n ← sumArgs inner args
     pure (1 + n)
-  | .dyn j :: rest => do
-    let a ← f j
-    let n ← sumArgs f rest
-    pure (a + n)
 
-/-- `get_loadable(D_i)`; `level` is the recursion level being entered -/
-def resolve (spec : Bsms) : Nat → Nat → Nat → TM Nat
-  | 0, level, _ => do enter level; crash Sites.stackDynamic
-  | gas + 1, level, i => do
-    enter level
-    match spec[i]? with
-    | none => fail                                  -- `PoolRead::get`: index beyond the pool
-    | some args => do
-      request args.length                           -- `Vec::with_capacity(method.arguments.len())`
-      let n ← sumArgs (resolve spec gas (level + 1)) args
-      pure (1 + n)
+/-- `get_loadable_at_depth(D_i, .., 16 - rem)` -/
+def resolve (spec : Bsms) : Nat → Nat → TM Nat
+  | 0 => resolveWith spec none
+  | rem + 1 => resolveWith spec (some (resolve spec rem))
 
-/-- the `dyn` op -/
-def dynOp (gas : Nat) (spec : Bsms) : TM Nat := resolve spec gas 1 0
+/-- the `dyn` op: `ldc_w D_0` is `get_loadable(D_0)` at depth 0 -/
+def dynOp (spec : Bsms) : TM Nat := resolve spec maxDepth 0
 
 /-- `D_0` lists itself as its own bootstrap argument -/
 def selfRef : Bsms := [[.dyn 0]]
